@@ -52,3 +52,8 @@ CHECKS["C04"] = {
   "text": "Every pointer to a global, function, alias, ifunc, comdat, attribute group, numbered metadata node or named type met anywhere in the parsed module must be the object the module lists under that name/ID; every parameter, block, instruction or terminator met as an operand must belong to the function being walked (for blockaddress: to the named function, so no translation-time dummy block survives); Parent links must agree with containment. Modules come from the typed generator (forward, mutual, self and cross-function references, cycles) rendered in shuffled order with spelling noise.",
   "note": "Trusts the reflection walker in checks/c04 (exported fields). Wrong-but-existing bindings (a use bound to another object of the right kind) are detected by C01's canonical diff, not here. Inputs the parser rejects are judged by C01.",
 }
+CHECKS["C12"] = {
+  "technique": "property-based testing: metamorphic repetition (same text parsed K times, interleaved with other parses, through four entry points, in fresh processes and concurrently under the Go race detector) over rapid-generated 'big' modules and rejected variants; oracle = equality of printed text, structural bisimulation and verdict",
+  "text": "Every generated input (>= 8 entities in each of the translator's maps, shuffled order, spelling noise; one third invalid) is parsed 16 (quick) / 64 (thorough) times with other parses and prints in between; String(), a structural bisimulation and accept/reject must never differ; ParseFile, Parse, ParseBytes and ParseString must agree; a sample is re-parsed in fresh processes; 2..8 goroutines parse unrelated inputs concurrently in a -race build and any race report or result difference is a violation.",
+  "note": "Go map iteration orders, hash seeds and goroutine schedules are sampled by repetition, not enumerated (no add-only hook can own `range` over a map); with k>=8 entities per map an order dependence survives K repetitions with probability <= 2^-(K-1). Trusts the race detector's happens-before analysis for the concurrent part.",
+}
